@@ -20,7 +20,8 @@ def run(ctx):
     # GoldHashMap keeps the cached hash of entries[i] in hash_cache[i]
     parallel.run(ctx, fx, "src/hash_map/gold_hash_map.rs", "hash_map::gold_hash_map::GoldHashMap", "entries", "hash_cache")
     ctx.floor("R-PARALLEL.functions", 2)
-    parallel.clear_completeness(ctx, fx, "src/hash_map/gold_hash_map.rs", "hash_map::gold_hash_map::GoldHashMap")
+    parallel.clear_all(ctx, fx, ["src/hash_map/gold_hash_map.rs", "src/hash_map/zipora_hash_map.rs", "src/hash_map/gold_hash_idx.rs",
+                                 "src/containers/specialized/small_map.rs"])
     ctx.floor("R-CLEAR.fields", 3)
     ctx.floor("R-TAINT-S.complete.enumerators", 1)
     ctx.floor("R-TAINT-S.sources", 4)
